@@ -172,3 +172,17 @@ Example ex_stack_runs :
   | _ => False
   end.
 Proof. vm_compute. split; reflexivity. Qed.
+
+(* ---- rewrite.def text: comment, blank line, exempt line, rules separated by tab / several spaces / ideographic space,
+   a value that starts with '#', a key that contains '#', CR LF line ends ---- *)
+From SudachiVerif Require Import Model.RewriteDefText.
+Definition ex_def : text :=
+  (* "# c\r\n\r\n Ⅲ \r\n♯\t#\r\na#b   x\r\nab　y # z"  -> last line has four columns *)
+  [35; 32; 99; 13; 10;  13; 10;  32; 8546; 32; 13; 10;  9839; 9; 35; 13; 10;  97; 35; 98; 32; 32; 32; 120; 13; 10].
+Example ex_def_read : read_rewrite_def ex_def = RdOk [8546] [([9839], [35]); ([97; 35; 98], [120])].
+Proof. vm_compute. reflexivity. Qed.
+Example ex_def_errors :
+  read_rewrite_def (ex_def ++ [97; 98; 12288; 121; 32; 35; 32; 122]) = RdErr ECols 5
+  /\ read_rewrite_def (ex_def ++ [9839; 32; 120]) = RdErr EDup 5
+  /\ read_rewrite_def (ex_def ++ [97; 98; 10]) = RdErr ENotChar 5.
+Proof. vm_compute. repeat split; reflexivity. Qed.
